@@ -80,6 +80,10 @@ def layouts(tier, seed, salt):
     add(7, 4, 1, [{"w": 20, "acc": "rw"}, {"w": 1, "acc": "w"}, {"w": 15, "acc": "r"}], ovs=[None, 1])
     add(24, 3, 0, [{"w": 49, "acc": "rw", "addr": 1}, {"w": 24, "acc": "rw"}], ovs=[None, 0])
     add(8, 8, 0, [{"w": 24, "acc": "rw", "addr": 201}, {"w": 8, "acc": "rw", "addr": 255}, {"w": 16, "acc": "rw", "addr": 127}], ovs=[None, 0])
+    # shadows with many chunks (9 and 17 one-word registers without sharing; 1+4+1 words spread by alignment)
+    add(8, 5, 0, [{"w": 7, "acc": "r", "ralign": 2}, {"w": 32, "acc": "r", "ralign": 2}, {"w": 1, "acc": "r"}], ovs=[0, None])
+    add(8, 5, 0, [{"w": 8, "acc": "rw"} for _ in range(9)], ovs=[0])
+    add(8, 5, 0, [{"w": 5, "acc": "r" if i % 3 else "rw"} for i in range(17)], ovs=[0, 1])
     # addresses far above 256 (10- and 16-bit address spaces), up to the very last address
     add(8, 10, 0, [{"w": 16, "acc": "rw", "addr": 0x102}, {"w": 8, "acc": "r", "addr": 0x204}, {"w": 24, "acc": "rw", "addr": 0x3fd}],
         ovs=[None, 0])
